@@ -713,6 +713,80 @@ def modes_strategy():
 FILE_NAMES = gen.names(10).filter(lambda s: s.strip() == s and not s.startswith("-")).map(lambda s: s + ".nix")
 
 
+def run_foreign(case, ctx):
+    """
+    an EXISTING path that is no NIX file at all (not even HDF5: text, a few bytes, a NIX file cut short): refused
+    in read-only, read-write and default mode with the bytes on disk untouched ('keeps all existing content and
+    creates the file only if it is missing'); overwrite replaces it by a fresh empty file
+    """
+    lib = lib_version()
+    mode = case["mode"]
+    d = os.path.join(ctx.workdir, "foreign")
+    shutil.rmtree(d, ignore_errors=True)
+    os.makedirs(d)
+    path = os.path.join(d, "some.nix")
+    kind = case["kind"]
+    if kind == "text":
+        content = ("not a NIX file, line %d\n" % case["n"]).encode() * (1 + case["n"] % 50)
+    elif kind == "bytes":
+        content = bytes((case["n"] * 7 + i * 31) % 256 for i in range(1 + case["n"] % 300))
+    else:
+        nixio = _nixio()
+        tmp = os.path.join(d, "whole.nix")
+        f = nixio.File.open(tmp, nixio.FileMode.Overwrite)
+        b = f.create_block("b", "t")
+        b.create_data_array("a", "t", data=list(range(200)))
+        f.close()
+        with open(tmp, "rb") as fh:
+            raw = fh.read()
+        os.remove(tmp)
+        cut = {"cut-head": 8 + case["n"] % 500, "cut-half": len(raw) // 2 + case["n"] % 100,
+               "cut-tail": len(raw) - 1 - case["n"] % 64}[kind]
+        content = raw[:cut]
+    with open(path, "wb") as fh:
+        fh.write(content)
+    kb = "C11/foreign/%s/%s" % (kind, mode)
+    f = None
+    try:
+        f = open_mode(path, mode)
+    except Exception:  # noqa
+        pass
+    gc.collect()
+    if mode == "w":
+        if f is None:
+            ctx.violation(kb + "/overwrite-refused", case, {})
+        else:
+            check_fresh(ctx, case, kb, path, f, None, lib)
+    else:
+        if f is not None:
+            ctx.violation(kb + "/not-refused", case, {"size": len(content)})
+            try:
+                f.close()
+            except Exception:  # noqa
+                pass
+            gc.collect()
+        now = None
+        if os.path.exists(path):
+            with open(path, "rb") as fh:
+                now = fh.read()
+        if now != content:
+            ctx.violation(kb + "/bytes-changed", case,
+                          {"size_before": len(content), "size_after": None if now is None else len(now)})
+        if sorted(os.listdir(d)) != ["some.nix"]:
+            ctx.violation(kb + "/other-files-created", case, {"listing": sorted(os.listdir(d))})
+    shutil.rmtree(d, ignore_errors=True)
+    ctx.case(case, True, ["foreign:%s:%s" % (kind, mode)])
+
+
+FOREIGN_KINDS = ["text", "bytes", "cut-head", "cut-half", "cut-tail"]
+
+
+def foreign_strategy():
+    return st.fixed_dictionaries({"part": st.just("foreign"), "kind": st.sampled_from(FOREIGN_KINDS),
+                                  "mode": st.sampled_from(["r", "a", "default", "a", "default", "w"]),
+                                  "n": st.integers(0, 9999)})
+
+
 def missing_strategy():
     return st.fixed_dictionaries({"part": st.just("missing"), "mode": st.sampled_from(["r", "a", "default", "w"]),
                                   "name": st.one_of(st.just("missing.nix"), FILE_NAMES)})
@@ -731,6 +805,7 @@ def shards(tier, seed):
     specs += [{"part": "lattice", "i": i, "of": N_LATTICE_SHARDS, "seed": seed} for i in range(N_LATTICE_SHARDS)]
     specs += [{"part": "modes", "n": per_mo, "seed": seed * 1000 + 500 + i, "skip_first": i > 0} for i in range(nmo)]
     specs += [{"part": "missing", "n": 40 if tier == "quick" else 400, "seed": seed * 1000 + 900}]
+    specs += [{"part": "foreign", "n": 30 if tier == "quick" else 400, "seed": seed * 1000 + 950}]
     return specs
 
 
@@ -763,6 +838,11 @@ def run_shard(spec, ctx):
             _generate(ro_strategy(), spec, lambda c: run_ro(c, ctx, clock))
         elif part == "modes":
             _generate(modes_strategy(), spec, lambda c: run_modes(c, ctx, clock))
+        elif part == "foreign":
+            for kind in FOREIGN_KINDS:
+                for mode in ("r", "a", "default", "w"):
+                    run_foreign({"part": "foreign", "kind": kind, "mode": mode, "n": 1}, ctx)
+            gen.generate(foreign_strategy(), spec["n"], spec["seed"], lambda c: run_foreign(c, ctx))
         else:
             for mode in ("r", "a", "default", "w"):
                 run_missing({"part": "missing", "mode": mode, "name": "missing.nix"}, ctx)
@@ -778,6 +858,8 @@ def replay(case, ctx):
             run_ro(case, ctx, clock)
         elif part == "modes":
             run_modes(case, ctx, clock)
+        elif part == "foreign":
+            run_foreign(case, ctx)
         else:
             run_missing(case, ctx)
 
@@ -797,6 +879,9 @@ def valid(case):
             return isinstance(case["rich"], bool) and _valid_prog(case["build"]) and _valid_prog(case["attempts"])
         if part == "modes":
             return isinstance(case["rich"], bool) and _valid_prog(case["build"])
+        if part == "foreign":
+            return (case["kind"] in FOREIGN_KINDS and case["mode"] in ("r", "a", "default", "w") and
+                    isinstance(case["n"], int) and 0 <= case["n"] <= 9999)
         if part == "missing":
             n = case["name"]
             return (case["mode"] in ("r", "a", "default", "w") and isinstance(n, str) and n.endswith(".nix")
